@@ -130,7 +130,7 @@ def run(ctx):
         for i, codes in enumerate(L.all_grids(H, W, sorted(cl))):
             if not any(5 in row for row in codes):
                 continue                      # no seeded pixel: nothing to filter
-            reps = range(npat) if (not quick and H * W <= 9) else [i % npat, (i * 5 + 3) % npat]
+            reps = range(npat) if (not quick and H * W <= 9) else sorted({i % npat, (i * 5 + 3) % npat})
             for p in reps:
                 jobs.append(("g%dx%d/%d/p%d" % (H, W, i, p), codes, (i + p) % 4, p))
     # elongated / L-shaped / straddling islands on an asymmetric grid
